@@ -1099,30 +1099,41 @@ private:
     // UnboundedNoMaxLimit does not block or drop messages
     for (ThreadContext* thread_context : _active_thread_contexts_cache)
     {
-      if (thread_context->has_bounded_queue_type())
+      _check_failure_counter(thread_context, error_notifier);
+    }
+  }
+
+  /**
+   * Reports and resets the failure counter of a single thread context
+   */
+  QUILL_ATTRIBUTE_HOT static void _check_failure_counter(ThreadContext* thread_context,
+                                                         std::function<void(std::string const&)> const& error_notifier) noexcept
+  {
+    if (!thread_context->has_bounded_queue_type())
+    {
+      return;
+    }
+
+    size_t const failed_messages_cnt = thread_context->get_and_reset_failure_counter();
+
+    if (QUILL_UNLIKELY(failed_messages_cnt > 0))
+    {
+      char timestamp[24];
+      time_t now = time(nullptr);
+      tm local_time;
+      localtime_rs(&now, &local_time);
+      strftime(timestamp, sizeof(timestamp), "%X", &local_time);
+
+      if (thread_context->has_dropping_queue())
       {
-        size_t const failed_messages_cnt = thread_context->get_and_reset_failure_counter();
-
-        if (QUILL_UNLIKELY(failed_messages_cnt > 0))
-        {
-          char timestamp[24];
-          time_t now = time(nullptr);
-          tm local_time;
-          localtime_rs(&now, &local_time);
-          strftime(timestamp, sizeof(timestamp), "%X", &local_time);
-
-          if (thread_context->has_dropping_queue())
-          {
-            error_notifier(fmtquill::format("{} Quill INFO: Dropped {} log messages from thread {}",
-                                            timestamp, failed_messages_cnt, thread_context->thread_id()));
-          }
-          else if (thread_context->has_blocking_queue())
-          {
-            error_notifier(
-              fmtquill::format("{} Quill INFO: Experienced {} blocking occurrences on thread {}",
-                               timestamp, failed_messages_cnt, thread_context->thread_id()));
-          }
-        }
+        error_notifier(fmtquill::format("{} Quill INFO: Dropped {} log messages from thread {}",
+                                        timestamp, failed_messages_cnt, thread_context->thread_id()));
+      }
+      else if (thread_context->has_blocking_queue())
+      {
+        error_notifier(
+          fmtquill::format("{} Quill INFO: Experienced {} blocking occurrences on thread {}",
+                           timestamp, failed_messages_cnt, thread_context->thread_id()));
       }
     }
   }
@@ -1401,10 +1412,6 @@ private:
       return;
     }
 
-    // report any dropped messages of the contexts we are about to remove. This function is also
-    // called after a flush request, where the failure counters have not been checked
-    _check_failure_counter(_options.error_notifier);
-
     auto find_invalid_and_empty_thread_context_callback = [](ThreadContext* thread_context)
     {
       // If the thread context is invalid it means the thread that created it has now died.
@@ -1444,6 +1451,11 @@ private:
 
     while (QUILL_UNLIKELY(found_invalid_and_empty_thread_context != std::end(_active_thread_contexts_cache)))
     {
+      // The thread that owned this context has exited, so its failure counter is final now: report
+      // whatever is left of it before the context is destroyed (the thread may have dropped a
+      // message and exited after the counters were last checked)
+      _check_failure_counter(*found_invalid_and_empty_thread_context, _options.error_notifier);
+
       // if we found anything then remove it - Here if we have more than one to remove we will
       // try to acquire the lock multiple times, but it should be fine as it is unlikely to have
       // that many to remove
